@@ -118,18 +118,68 @@ class Builder(object):
     def cval(self, t):
         """Concrete value if the term is known to be a single value here."""
         if t.isbool:
-            lo, hi = self.rng(t)
-            return None if lo != hi else bool(lo)
+            return self.bval(t)
         lo, hi = self.rng(t)
         return lo if lo == hi else None
+
+    def bval(self, t, depth=0):
+        """Truth value of a boolean term under this path's knowledge, or None."""
+        if t.op == "true":
+            return True
+        if t.op == "false":
+            return False
+        b = self.bounds.get(t.id)
+        if b is not None and b[0] == b[1]:
+            return bool(b[0])
+        if depth > 6:
+            return None
+        op = t.op
+        if op == "not":
+            v = self.bval(t.args[0], depth + 1)
+            return None if v is None else (not v)
+        if op in ("and", "or"):
+            x = self.bval(t.args[0], depth + 1)
+            y = self.bval(t.args[1], depth + 1)
+            if op == "and":
+                if x is False or y is False:
+                    return False
+                if x is True and y is True:
+                    return True
+            else:
+                if x is True or y is True:
+                    return True
+                if x is False and y is False:
+                    return False
+            return None
+        if op in ("le", "lt", "eq"):
+            (al, ah), (bl, bh) = self.rng(t.args[0]), self.rng(t.args[1])
+            if op == "le":
+                if ah <= bl:
+                    return True
+                if al > bh:
+                    return False
+            elif op == "lt":
+                if ah < bl:
+                    return True
+                if al >= bh:
+                    return False
+            else:
+                if ah < bl or bh < al:
+                    return False
+                if al == ah == bl == bh:
+                    return True
+        return None
 
     def norm(self, t):
         """Replace a term pinned to one value by the constant."""
         if t.op in ("const", "true", "false"):
             return t
+        if t.isbool:
+            v = self.bval(t)
+            return t if v is None else boolc(v)
         lo, hi = self.rng(t)
         if lo == hi:
-            return boolc(lo) if t.isbool else const(lo)
+            return const(lo)
         return t
 
     def _num(self, op, args, lo, hi, tz=0, val=None):
